@@ -7,7 +7,7 @@ RULE = ("MC: the transcribed per-byte mask/shift loops of Assembler::put / Parse
         "frame condition, overflow leaves state alone; small step machine explored separately); "
         "TV: sessions on the real Assembler/Parser through the cfg(rtcm_rs_verif) re-export: carriers 8/16/32/64, widths 1..carrier, "
         "all representable values for w <= 8 (quick) / 12 (thorough), boundary, one-hot and random values above, random offsets, "
-        "buffer lengths 1..24 bytes, backgrounds {00,FF,A5,5A,random}, overflow attempts; the spec carries buffer and cursor and "
+        "buffer lengths 1..24 bytes, backgrounds {00,FF,A5,5A,random}, overflow attempts, and values that are NOT representable in the width (up to the ends of the carrier type: totality, cursor and frame condition only), in both build profiles; the spec carries buffer and cursor and "
         "checks every Put/Parse step, AsmEnd compares the whole buffer; non-trivial = put/parse of a field; distinct = distinct "
         "(kind, carrier, width, value) cases")
 
@@ -24,6 +24,12 @@ def run(chk):
     r = tv("Trace_BitIO", "Trace_BitIO.cfg", t, reset_events=("AsmInit",), shards=12, tag="C07")
     chk.add_tv("bits", r)
     report_rejects(chk, r, sig, lambda ev, d: "Assembler/Parser session is not a behaviour of BitIO (first bad event %s)" % json.dumps(ev)[:300])
+    # the same sessions (smaller value enumeration) in the overflow-checked build profile: a put or parse must
+    # not panic for any carrier value, representable or not
+    t2 = record("bits", chk.path("bits-relchk.ndjson"), profile="relchk", seed=chk.seed + 1, exhaustive_w=6 if q else 9, random_per=2 if q else 10)
+    r2 = tv("Trace_BitIO", "Trace_BitIO.cfg", t2, reset_events=("AsmInit",), shards=12, tag="C07-relchk")
+    chk.add_tv("bits[relchk]", r2)
+    report_rejects(chk, r2, lambda ev, d: "[overflow-checks] " + sig(ev, d), lambda ev, d: "[overflow-checks] Assembler/Parser session is not a behaviour of BitIO (first bad event %s)" % json.dumps(ev)[:300])
     cases = set()
     ovf = 0
     for ln, o in r["lines"]:
